@@ -97,7 +97,7 @@ pub fn run(ctx: &mut Ctx) {
     for (n, ok) in rsm4::selftest() {
         ctx.selftest(&n, ok);
     }
-    ctx.require(&["openssl_modes", "len_sweep", "ctr_carry", "ctr_wrap", "random_long", "bad_iv_len", "bad_iv_data_len=0", "cbc_bad_len", "cbc_empty", "cbc_bad_pad_byte", "cbc_lenient_pad"]);
+    ctx.require(&["openssl_modes", "len_sweep", "ctr_carry", "ctr_wrap", "random_long", "bad_iv_len", "bad_iv_data_len=0", "cbc_bad_len", "cbc_empty", "cbc_bad_pad_byte", "cbc_lenient_pad", "beyond_2^8_blocks", "beyond_2^16_blocks"]);
     for m in MODES {
         for r in 0..16 {
             let s = format!("{}_len_mod16={}", mode_name(m), r);
@@ -198,7 +198,38 @@ pub fn run(ctx: &mut Ctx) {
         case(ctx, m, &key, &iv, &data, "random_long");
     }
 
+    // --- data beyond 2^8, 2^12 and 2^16 blocks (counter bytes, block-index casts), every mode, lengths on and off the
+    // block boundary; for CTR also with an IV whose low counter bytes are about to wrap inside the message
+    {
+        let mut pl = ctx.prng("blocks");
+        let lens = [256usize * 16, 256 * 16 + 1, 4096 * 16 + 15, 65536 * 16, 65536 * 16 + 17];
+        let mut bi = 0u64;
+        for m in MODES {
+            for (li, len) in lens.iter().enumerate() {
+                bi += 1;
+                let key: [u8; 16] = pl.arr();
+                let mut iv: [u8; 16] = pl.arr();
+                let sub = pl.next();
+                if !ctx.mine(bi) || (!ctx.thorough && li >= 3 && bi % 2 == 0) {
+                    continue;
+                }
+                if li % 2 == 1 {
+                    // the last two counter bytes wrap after a few hundred blocks
+                    iv[14] = 0xff;
+                    iv[15] = 0x00;
+                }
+                let data = Prng::new(sub, "d").bytes(*len);
+                ctx.class("beyond_2^8_blocks");
+                if *len >= 65536 * 16 {
+                    ctx.class("beyond_2^16_blocks");
+                }
+                case(ctx, m, &key, &iv, &data, "many_blocks");
+            }
+        }
+    }
+
     // --- error cases
+    let mut prng = ctx.prng("errors");    // --- error cases
     let mut prng = ctx.prng("errors");
     idx = 0;
     // IV lengths 0..=32 except 16, all 8 mode/direction pairs
